@@ -52,6 +52,9 @@ func (p *Unsuback) Unpack(r io.Reader) error {
 		return err
 	}
 	if IsVersion3X(p.Version) {
+		if bufr.Len() != 0 {
+			return codes.ErrMalformed
+		}
 		return nil
 	}
 
